@@ -24,7 +24,7 @@ func init() {
 		Rule: "every recursive construct of the grammar nested to depth 10, 10^2, ... up to the tier's maximum ( ((((1)))), a[a[a[...]]], not(not(...)), -(-(...)), a/((((b)))) - the parseStep/parseSequence cycle -, a/(a/(a/(...))), unterminated a/((((, f(f(f(...))), (a|(a|(...))) ) and every iterative construct to length 3*10^k (a/a/..., 1+1+..., a|a|..., a or a ..., a[1][1]..., a//a..., f(1,1,...), -----1, long names, long strings, long numbers), each through Compile, CompileWithNS (nil, empty, bound, unbound maps) and MustCompile; " +
 			"grammar-generated valid expressions and their truncations at every byte; seeded random token strings over the token alphabet plus arbitrary bytes (NUL, invalid UTF-8, non-ASCII name characters). The worker's maximum goroutine stack is lowered to 64 MiB so that unbounded recursion surfaces at depth ~10^5. " +
 			"Non-trivial: the input is longer than 8 bytes; distinct by input text (hash).",
-		Assume:        []string{"a fatal runtime error kills only the worker process; the driver attributes it to the case announced last", "CPU budget per case: 300 s (observed maximum for 3 MB inputs: a few seconds)"},
+		Assume:        []string{"a fatal runtime error kills only the worker process; the driver attributes it to the case announced last", "CPU budget per case: 150 s (observed maximum for 3 MB inputs: a few seconds)"},
 		MinNontrivial: tierN(50000, 500000),
 		Required:      []string{"deep", "long", "fuzz:accepted", "fuzz:rejected", "ns:unbound-rejected", "mustcompile"},
 		Families: []Family{
